@@ -2,7 +2,7 @@
    parse_rule's loop (one iteration each), then productions, rule blocks and the
    whole section. *)
 From Coq Require Import List Arith NArith ZArith Bool Lia.
-From GV Require Import Common.Outcome C10.YpModel C10.YpSpec C10.YpProofs C10.YpPrint C10.YpRoundSpec C10.YpRoundBase C10.YpRoundInv C10.YpRoundAction.
+From GV Require Import Common.Outcome C10.YpModel C10.YpSpec C10.YpProofs C10.YpPrint C10.YpRoundSpec C10.YpRoundBase C10.YpRoundInv C10.YpRoundAction C10.YpRoundLex.
 Import ListNotations.
 Local Open Scope nat_scope.
 
@@ -692,16 +692,73 @@ Qed.
 Lemma colon_not_name_cont : name_cont c_colon = false.
 Proof. reflexivity. Qed.
 
-Lemma rule_at : forall fa D src pre rl r rest i n a g e,
+(* the productions of a block never start with a colon *)
+Lemma print_prods_not_colon : forall D rl ps pi rest,
+  ps <> [] -> wf_prods D rl pi ps -> not_starting is_colon (print_prods rl pi ps ++ rest).
+Proof.
+  intros D rl [|p ps] pi rest Hne Hw; [congruence|]. cbn [print_prods wf_prods] in *.
+  destruct Hw as [[Hws _] _]. unfold print_prod, print_empty.
+  destruct (uses_empty (r_play rl pi) p) eqn:Eu; [reflexivity|]. cbn [app].
+  destruct (ap_syms p) as [|s ss] eqn:Es.
+  - cbn [print_syms app]. unfold print_prec. destruct (ap_prec p); [reflexivity|]. cbn [app].
+    unfold print_action. destruct (ap_action p); [reflexivity|]. cbn [app]. destruct ps; reflexivity.
+  - cbn [print_syms wf_syms] in *. destruct Hws as [[Hq _] _]. unfold print_sym.
+    destruct (print_tok_hd _ _ Hq) as [c [t [E Hc]]]. rewrite E. repeat rewrite <- app_assoc. cbn [app not_starting].
+    unfold is_colon. destruct (sym_q (r_play rl pi) 0 s).
+    + pose proof (tok_start_hd c Hc kw_colon ltac:(simpl; tauto)) as Hh. unfold hd_is, kw_colon in Hh.
+      rewrite N.eqb_sym. exact Hh.
+    + subst c. reflexivity.
+    + subst c. reflexivity.
+Qed.
+
+(* from the colon on: gap, productions, the layout after the block *)
+Lemma rule_tail_at : forall fa D src pre rl r rest j n a1 g e,
+  src = pre ++ c_colon :: rg_colon rl ++ print_prods rl 0 (ar_prods r) ++ rest -> j = byte_len pre ->
+  layout_text (rg_colon rl) -> ar_prods r <> [] -> wf_prods D rl 0 (ar_prods r) -> item_start rest ->
+  tok_inv D a1 -> has_rule a1 (ar_name r) = true ->
+  exists n',
+    sbind (sbind (ws true src (byte_len src) (fuel_for src) (mkSt n a1 g e) (j + 1) true)
+                 (fun st i => rule_loop true fa src (byte_len src) (fuel_for src) (fuel_for src) st (ar_name r) i [] None None i None))
+          (fun st j => P_ws src st j true)
+    = Done (mkSt n' (prods_eff fa rl (ar_name r) 0 (j + 1 + byte_len (rg_colon rl)) (ar_prods r) a1) g e,
+            Ok (j + 1 + byte_len (rg_colon rl) + byte_len (print_prods rl 0 (ar_prods r)))).
+Proof.
+  intros fa D src pre rl r rest j n a1 g e Hs Hj Hl2 Hne Hwp Hr Hinv Hru.
+  set (body := print_prods rl 0 (ar_prods r)) in *.
+  assert (Hs3 : src = (pre ++ [c_colon]) ++ rg_colon rl ++ (body ++ rest)) by (rewrite Hs; lsolve).
+  assert (Hi3 : j + 1 = byte_len (pre ++ [c_colon])) by (subst j; rewrite !byte_len_app; reflexivity).
+  rewrite (ws_gap _ _ _ _ _ _ _ _ _ true Hs3 Hi3 Hl2 (print_prods_item_start _ _ _ _ _ Hwp Hr))
+    by (intros HH; discriminate HH).
+  cbn [sbind].
+  assert (Hs4 : src = ((pre ++ [c_colon]) ++ rg_colon rl) ++ body ++ rest) by (rewrite Hs; lsolve).
+  assert (Hi4 : j + 1 + byte_len (rg_colon rl) = byte_len ((pre ++ [c_colon]) ++ rg_colon rl))
+    by (subst j; rewrite !byte_len_app; reflexivity).
+  assert (Hfuel : fuel_for src = prods_steps rl 0 (ar_prods r) + (fuel_for src - prods_steps rl 0 (ar_prods r))).
+  { pose proof (prods_steps_le _ _ _ _ Hwp) as Hle. fold body in Hle. unfold fuel_for.
+    rewrite Hs. rewrite !byte_len_app. cbn [byte_len]. rewrite !byte_len_app. lia. }
+  match goal with
+  | |- context [rule_loop true fa src (byte_len src) (fuel_for src) (fuel_for src) ?st] =>
+      replace (rule_loop true fa src (byte_len src) (fuel_for src) (fuel_for src) st)
+        with (rule_loop true fa src (byte_len src) (fuel_for src)
+                (prods_steps rl 0 (ar_prods r) + (fuel_for src - prods_steps rl 0 (ar_prods r))) st)
+        by (rewrite <- Hfuel; reflexivity)
+  end.
+  destruct (rl_prods fa D rl (ar_name r) (ar_prods r) 0 src _ rest _ (fuel_for src - prods_steps rl 0 (ar_prods r))
+              (n + count_nl (rg_colon rl)) a1 g e Hne Hs4 Hi4 Hwp Hinv Hru Hr) as [n' Hn'].
+  exists n'. rewrite Hn'. reflexivity.
+Qed.
+
+(* a block without action type: Original and Eco dialects *)
+Lemma rule_at_plain : forall fa D src pre rl r rest i n a g e,
   src = pre ++ print_rule rl r ++ rest -> i = byte_len pre ->
-  wf_rule D rl r -> item_start rest -> tok_inv D a ->
+  wf_rule D rl r -> ar_type r = None -> item_start rest -> tok_inv D a ->
   exists n',
     sbind (parse_rule true fa KOriginal src (byte_len src) (fuel_for src) (mkSt n a g e) i)
           (fun st j => P_ws src st j true)
     = Done (mkSt n' (rule_eff fa rl i (actiont_of g) r a) g e, Ok (i + byte_len (print_rule rl r))).
 Proof.
-  intros fa D src pre rl r rest i n a g e Hs Hi [Hn [Hl1 [Hl2 [Hne Hwp]]]] Hr Hinv.
-  unfold print_rule in Hs.
+  intros fa D src pre rl r rest i n a g e Hs Hi [Hn [Hl1 [Hl2 [Hne [Hwp _]]]]] Hty Hr Hinv.
+  unfold print_rule, print_rtype in Hs. rewrite Hty in Hs. cbn [app] in Hs.
   set (nm := ar_name r) in *. set (body := print_prods rl 0 (ar_prods r)) in *.
   assert (Hs0 : src = pre ++ nm ++ (rg_name rl ++ c_colon :: rg_colon rl ++ body ++ rest)) by (rewrite Hs; lsolve).
   unfold parse_rule.
@@ -719,7 +776,7 @@ Proof.
   end.
   cbn [ret sbind].
   set (a1 := rule_head_eff i (actiont_of g) nm a).
-  (* gap, colon, gap *)
+  (* gap, colon *)
   assert (Hs1 : src = (pre ++ nm) ++ rg_name rl ++ (c_colon :: rg_colon rl ++ body ++ rest)) by (rewrite Hs; lsolve).
   assert (Hi1 : i + byte_len nm = byte_len (pre ++ nm)) by (subst i; rewrite byte_len_app; reflexivity).
   rewrite (ws_gap _ _ _ _ _ _ _ _ _ true Hs1 Hi1 Hl1 ltac:(reflexivity)) by (intros HH; discriminate HH).
@@ -727,36 +784,124 @@ Proof.
   assert (Hs2 : src = ((pre ++ nm) ++ rg_name rl) ++ c_colon :: (rg_colon rl ++ body ++ rest)) by (rewrite Hs; lsolve).
   assert (Hi2 : i + byte_len nm + byte_len (rg_name rl) = byte_len ((pre ++ nm) ++ rg_name rl))
     by (subst i; rewrite !byte_len_app; reflexivity).
-  look1 Hs2 Hi2.
-  assert (Hs3 : src = (((pre ++ nm) ++ rg_name rl) ++ [c_colon]) ++ rg_colon rl ++ (body ++ rest)) by (rewrite Hs; lsolve).
-  assert (Hi3 : i + byte_len nm + byte_len (rg_name rl) + byte_len kw_colon
-                = byte_len (((pre ++ nm) ++ rg_name rl) ++ [c_colon]))
-    by (subst i; rewrite !byte_len_app; reflexivity).
-  rewrite (ws_gap _ _ _ _ _ _ _ _ _ true Hs3 Hi3 Hl2 (print_prods_item_start _ _ _ _ _ Hwp Hr))
-    by (intros HH; discriminate HH).
-  cbn [sbind].
-  (* the productions *)
-  assert (Hs4 : src = ((((pre ++ nm) ++ rg_name rl) ++ [c_colon]) ++ rg_colon rl) ++ body ++ rest) by (rewrite Hs; lsolve).
-  assert (Hi4 : i + byte_len nm + byte_len (rg_name rl) + byte_len kw_colon + byte_len (rg_colon rl)
-                = byte_len ((((pre ++ nm) ++ rg_name rl) ++ [c_colon]) ++ rg_colon rl))
-    by (subst i; rewrite !byte_len_app; reflexivity).
-  assert (Hfuel : fuel_for src = prods_steps rl 0 (ar_prods r) + (fuel_for src - prods_steps rl 0 (ar_prods r))).
-  { pose proof (prods_steps_le _ _ _ _ Hwp) as Hle. fold body in Hle. unfold fuel_for.
-    rewrite Hs. rewrite !byte_len_app. cbn [byte_len]. rewrite !byte_len_app. lia. }
-  match goal with
-  | |- context [rule_loop true fa src (byte_len src) (fuel_for src) (fuel_for src) ?st] =>
-      replace (rule_loop true fa src (byte_len src) (fuel_for src) (fuel_for src) st)
-        with (rule_loop true fa src (byte_len src) (fuel_for src)
-                (prods_steps rl 0 (ar_prods r) + (fuel_for src - prods_steps rl 0 (ar_prods r))) st)
-        by (rewrite <- Hfuel; reflexivity)
-  end.
-  destruct (rl_prods fa D rl nm (ar_prods r) 0 src _ rest _ (fuel_for src - prods_steps rl 0 (ar_prods r))
-              (n + count_nl (rg_name rl) + count_nl (rg_colon rl)) a1 g e Hne Hs4 Hi4 Hwp
-              (tok_inv_rule_head _ _ _ _ _ Hinv) (rule_head_has_rule _ _ _ _) Hr) as [n' Hn'].
-  exists n'. rewrite Hn'. unfold rule_eff, rule_body_off. fold nm a1.
-  change (byte_len kw_colon) with 1.
-  f_equal. f_equal. f_equal. unfold print_rule. fold nm body. rewrite ?byte_len_app. cbn [byte_len]. rewrite ?byte_len_app.
+  look1 Hs2 Hi2. change (byte_len kw_colon) with 1.
+  destruct (rule_tail_at fa D src _ rl r rest _ (n + count_nl (rg_name rl)) a1 g e Hs2 Hi2 Hl2 Hne Hwp Hr
+              (tok_inv_rule_head _ _ _ _ _ Hinv) (rule_head_has_rule _ _ _ _)) as [n' Hn'].
+  exists n'. fold nm in Hn'. rewrite Hn'. unfold rule_eff, rule_body_off, rule_at_, print_rtype. rewrite Hty. fold nm a1.
+  f_equal. f_equal; [f_equal; f_equal; cbn [byte_len]; lia|]. f_equal.
+  unfold print_rule, print_rtype. rewrite Hty. fold nm body. cbn [app]. rewrite ?byte_len_app. cbn [byte_len]. rewrite ?byte_len_app.
   change (len_utf8 c_colon) with 1. lia.
+Qed.
+
+(* a block with its action type: Grmtools dialect *)
+Lemma arrow_not_name_cont : forall r, not_starting name_cont (kw_arrow ++ r).
+Proof. intros r. reflexivity. Qed.
+
+Lemma rule_at_typed : forall fa D src pre rl r ty rest i n a g e,
+  src = pre ++ print_rule rl r ++ rest -> i = byte_len pre ->
+  wf_rule D rl r -> ar_type r = Some ty -> item_start rest -> tok_inv D a ->
+  exists n',
+    sbind (parse_rule true fa KGrmtools src (byte_len src) (fuel_for src) (mkSt n a g e) i)
+          (fun st j => P_ws src st j true)
+    = Done (mkSt n' (rule_eff fa rl i (actiont_of g) r a) g e, Ok (i + byte_len (print_rule rl r))).
+Proof.
+  intros fa D src pre rl r ty rest i n a g e Hs Hi [Hn [Hl1 [Hl2 [Hne [Hwp Hty0]]]]] Hty Hr Hinv.
+  rewrite Hty in Hty0. destruct Hty0 as [Hla [Hwt [Hpad Hits]]].
+  unfold print_rule, print_rtype in Hs. rewrite Hty in Hs.
+  set (nm := ar_name r) in *. set (body := print_prods rl 0 (ar_prods r)) in *.
+  set (tail := c_colon :: rg_colon rl ++ body ++ rest).
+  assert (Hs0 : src = pre ++ nm ++ (rg_name rl ++ kw_arrow ++ rg_arrow rl ++ ty ++ r_tpad rl ++ tail))
+    by (rewrite Hs; unfold tail; lsolve).
+  unfold parse_rule.
+  assert (Hnf : not_starting name_cont (rg_name rl ++ kw_arrow ++ rg_arrow rl ++ ty ++ r_tpad rl ++ tail)).
+  { apply not_starting_gap; [exact name_cont_first_ok | exact Hl1 | apply arrow_not_name_cont]. }
+  destruct (parse_name_roundtrip pre nm _ Hn Hnf) as [Hpn _]. cbn zeta in Hpn.
+  rewrite <- Hs0, <- Hi in Hpn. rewrite Hpn. cbn [lift sbind].
+  rewrite mk_span_le by lia. cbn [lifto sbind].
+  set (a0 := match a_start a with None => upd_start a (Some (nm, (i, i + byte_len nm))) | Some _ => a end).
+  match goal with
+  | |- context [ws true src (byte_len src) (fuel_for src) ?X (i + byte_len nm) true] =>
+      replace X with (mkSt n a0 g e)
+        by (unfold a0; cbn [ast]; destruct (a_start a); unfold set_ast; cbn [ast gat nn errs]; reflexivity)
+  end.
+  (* gap, arrow, gap *)
+  assert (Hs1 : src = (pre ++ nm) ++ rg_name rl ++ (kw_arrow ++ rg_arrow rl ++ ty ++ r_tpad rl ++ tail))
+    by (rewrite Hs0; lsolve).
+  assert (Hi1 : i + byte_len nm = byte_len (pre ++ nm)) by (subst i; rewrite byte_len_app; reflexivity).
+  rewrite (ws_gap _ _ _ _ _ _ _ _ _ true Hs1 Hi1 Hl1 ltac:(reflexivity)) by (intros HH; discriminate HH).
+  cbn [sbind].
+  assert (Hs2 : src = ((pre ++ nm) ++ rg_name rl) ++ kw_arrow ++ (rg_arrow rl ++ ty ++ r_tpad rl ++ tail))
+    by (rewrite Hs0; lsolve).
+  assert (Hi2 : i + byte_len nm + byte_len (rg_name rl) = byte_len ((pre ++ nm) ++ rg_name rl))
+    by (subst i; rewrite !byte_len_app; reflexivity).
+  look1 Hs2 Hi2. change (byte_len kw_arrow) with 2.
+  assert (Hs3 : src = (((pre ++ nm) ++ rg_name rl) ++ kw_arrow) ++ rg_arrow rl ++ (ty ++ r_tpad rl ++ tail))
+    by (rewrite Hs0; lsolve).
+  assert (Hi3 : i + byte_len nm + byte_len (rg_name rl) + 2 = byte_len (((pre ++ nm) ++ rg_name rl) ++ kw_arrow))
+    by (subst i; rewrite !byte_len_app; reflexivity).
+  assert (Hit : item_start (ty ++ r_tpad rl ++ tail)).
+  { unfold tail. destruct ty as [|c ty']; [destruct (r_tpad rl) as [|c p']; [reflexivity | exact Hits] | exact Hits]. }
+  rewrite (ws_gap _ _ _ _ _ _ _ _ _ true Hs3 Hi3 Hla Hit) by (intros HH; discriminate HH).
+  cbn [sbind nn].
+  (* the type *)
+  assert (Hs4 : src = ((((pre ++ nm) ++ rg_name rl) ++ kw_arrow) ++ rg_arrow rl) ++ ty ++ r_tpad rl ++ c_colon :: (rg_colon rl ++ body ++ rest))
+    by (rewrite Hs0; unfold tail; lsolve).
+  assert (Hi4 : i + byte_len nm + byte_len (rg_name rl) + 2 + byte_len (rg_arrow rl)
+                = byte_len ((((pre ++ nm) ++ rg_name rl) ++ kw_arrow) ++ rg_arrow rl))
+    by (subst i; rewrite !byte_len_app; reflexivity).
+  assert (Hnc : not_starting is_colon (rg_colon rl ++ body ++ rest)).
+  { destruct (rg_colon rl) as [|c gp] eqn:Eg.
+    - cbn [app]. apply (print_prods_not_colon D); assumption.
+    - destruct (layout_text_hd _ Hl2 ltac:(discriminate)) as [c' [r' [E Hc']]]. injection E as <- <-.
+      cbn [app not_starting]. unfold is_colon. destruct Hc' as [Hb|Hb]; [|subst c; reflexivity].
+      apply N.eqb_neq. intros Ec. subst c. discriminate Hb. }
+  rewrite (to_colon_at _ _ _ _ _ _ _ a0 g e Hs4 Hi4 Hwt Hpad Hnc). cbn [sbind].
+  (* the state after the head *)
+  match goal with
+  | |- context [@ret nat ?X _] =>
+      replace X with (mkSt (n + count_nl (rg_name rl) + count_nl (rg_arrow rl) + count_nl (ty ++ r_tpad rl))
+                           (rule_head_eff i (Some ty) nm a) g e)
+        by (unfold rule_head_eff; fold a0; cbn [ast gat]; unfold set_ast; cbn [ast gat nn errs];
+            destruct (get_rule _ nm); reflexivity)
+  end.
+  cbn [ret sbind].
+  set (a1 := rule_head_eff i (Some ty) nm a).
+  (* at the colon *)
+  assert (Hs5 : src = (((((pre ++ nm) ++ rg_name rl) ++ kw_arrow) ++ rg_arrow rl) ++ ty ++ r_tpad rl) ++ c_colon :: (rg_colon rl ++ body ++ rest))
+    by (rewrite Hs0; unfold tail; lsolve).
+  assert (Hi5 : i + byte_len nm + byte_len (rg_name rl) + 2 + byte_len (rg_arrow rl) + byte_len (ty ++ r_tpad rl)
+                = byte_len (((((pre ++ nm) ++ rg_name rl) ++ kw_arrow) ++ rg_arrow rl) ++ ty ++ r_tpad rl))
+    by (subst i; rewrite !byte_len_app; reflexivity).
+  rewrite (ws_none _ _ _ _ _ _ _ _ true Hs5 Hi5 ltac:(reflexivity)). cbn [sbind].
+  look1 Hs5 Hi5. change (byte_len kw_colon) with 1.
+  destruct (rule_tail_at fa D src _ rl r rest _ (n + count_nl (rg_name rl) + count_nl (rg_arrow rl) + count_nl (ty ++ r_tpad rl))
+              a1 g e Hs5 Hi5 Hl2 Hne Hwp Hr
+              (tok_inv_rule_head _ _ _ _ _ Hinv) (rule_head_has_rule _ _ _ _)) as [n' Hn'].
+  exists n'. fold nm in Hn'. rewrite Hn'. unfold rule_eff, rule_body_off, rule_at_, print_rtype. rewrite Hty. fold nm a1.
+  f_equal. f_equal; [f_equal; f_equal; rewrite ?byte_len_app; change (byte_len kw_arrow) with 2; lia|]. f_equal.
+  unfold print_rule, print_rtype. rewrite Hty. fold nm body. rewrite ?byte_len_app. cbn [byte_len]. rewrite ?byte_len_app.
+  change (len_utf8 c_colon) with 1. change (byte_len kw_arrow) with 2. lia.
+Qed.
+
+Lemma parse_rule_eco : forall fa src len fuel st i,
+  parse_rule true fa KEco src len fuel st i = parse_rule true fa KOriginal src len fuel st i.
+Proof. reflexivity. Qed.
+
+Lemma rule_at : forall k fa D src pre rl r rest i n a g e,
+  src = pre ++ print_rule rl r ++ rest -> i = byte_len pre ->
+  wf_rule D rl r -> rule_kind_ok k r -> item_start rest -> tok_inv D a ->
+  exists n',
+    sbind (parse_rule true fa k src (byte_len src) (fuel_for src) (mkSt n a g e) i)
+          (fun st j => P_ws src st j true)
+    = Done (mkSt n' (rule_eff fa rl i (actiont_of g) r a) g e, Ok (i + byte_len (print_rule rl r))).
+Proof.
+  intros k fa D src pre rl r rest i n a g e Hs Hi Hw Hk Hr Hinv.
+  destruct (ar_type r) as [ty|] eqn:Ety.
+  - assert (k = KGrmtools) by (apply Hk; rewrite Ety; discriminate). subst k.
+    apply (rule_at_typed fa D src pre rl r ty rest); assumption.
+  - assert (Hk' : k <> KGrmtools) by (intros E; apply Hk in E; rewrite Ety in E; congruence).
+    destruct k; [ | congruence | rewrite parse_rule_eco ];
+      apply (rule_at_plain fa D src pre rl r rest); assumption.
 Qed.
 
 (* ======================================================================== *)
@@ -781,62 +926,80 @@ Proof.
   apply name_start_first_ok. exact Hc.
 Qed.
 
-Lemma rules_loop_at : forall fa D l rs r src pre i f n a g e,
-  src = pre ++ print_rules l r rs -> i = byte_len pre ->
-  wf_rules D l r rs -> tok_inv D a -> List.length rs < f ->
+Lemma rules_end_item_start : forall rest, rules_end rest -> item_start rest.
+Proof. intros rest [H|[r H]]; subst rest; reflexivity. Qed.
+
+Lemma print_rules_item_start_app : forall D l rs r rest,
+  wf_rules D l r rs -> item_start rest -> item_start (print_rules l r rs ++ rest).
+Proof.
+  intros D l [|x rs] r rest Hw Hr; [exact Hr|]. cbn [print_rules wf_rules] in *. destruct Hw as [[Hn _] _].
+  destruct (print_rule_hd (rlay_of l r) x Hn) as [c [t [E Hc]]]. rewrite E. cbn [app item_start].
+  apply name_start_first_ok. exact Hc.
+Qed.
+
+Lemma rules_loop_at : forall k fa D l rs r src pre rest i f n a g e,
+  src = pre ++ print_rules l r rs ++ rest -> i = byte_len pre ->
+  wf_rules D l r rs -> Forall (rule_kind_ok k) rs -> rules_end rest -> tok_inv D a -> List.length rs < f ->
   exists n',
-    rules_loop true fa KOriginal src (byte_len src) (fuel_for src) f (mkSt n a g e) i
+    rules_loop true fa k src (byte_len src) (fuel_for src) f (mkSt n a g e) i
     = Done (mkSt n' (rules_eff fa l r i (actiont_of g) rs a) g e, Ok (i + byte_len (print_rules l r rs))).
 Proof.
-  intros fa D l rs. induction rs as [|x rs IH]; intros r src pre i f n a g e Hs Hi Hw Hinv Hf.
-  - destruct f as [|f]; [cbn in Hf; lia|]. cbn [print_rules] in Hs. rewrite app_nil_r in Hs. subst pre.
-    exists n. cbn [rules_loop]. rewrite (not_lt_len_end _ _ Hi). cbn [negb ret print_rules byte_len rules_eff].
-    rewrite Nat.add_0_r. reflexivity.
+  intros k fa D l rs. induction rs as [|x rs IH]; intros r src pre rest i f n a g e Hs Hi Hw Hk He Hinv Hf.
+  - destruct f as [|f]; [cbn in Hf; lia|]. cbn [print_rules app] in Hs.
+    exists n. cbn [rules_loop]. destruct He as [He|[r' He]]; subst rest.
+    + rewrite app_nil_r in Hs. subst pre. rewrite (not_lt_len_end _ _ Hi). cbn [negb ret print_rules byte_len rules_eff].
+      rewrite Nat.add_0_r. reflexivity.
+    + assert (Hs0 : src = pre ++ 37%N :: (37%N :: r')) by (rewrite Hs; reflexivity).
+      rewrite (lt_len_at _ _ _ _ _ Hs0 Hi). cbn [negb].
+      look1 Hs Hi. cbn [print_rules byte_len rules_eff]. rewrite Nat.add_0_r. reflexivity.
   - destruct f as [|f]; [cbn in Hf; lia|]. cbn [List.length] in Hf.
     cbn [print_rules wf_rules rules_eff] in *. destruct Hw as [Hwr Hw'].
+    inversion Hk as [|x' rs' Hkx Hk']; subst x' rs'.
     pose proof Hwr as [Hn _].
     destruct (print_rule_hd (rlay_of l r) x Hn) as [c [t [E Hc]]].
-    assert (Hs0 : src = pre ++ c :: (t ++ print_rules l (S r) rs)) by (rewrite Hs, E; reflexivity).
+    assert (Hs0 : src = pre ++ c :: (t ++ print_rules l (S r) rs ++ rest)) by (rewrite Hs, E; lsolve).
     cbn [rules_loop]. rewrite (lt_len_at _ _ _ _ _ Hs0 Hi). cbn [negb].
     rewrite (look_at _ _ _ _ _ _ Hs0 Hi). rewrite prefix_of_hd_false by (apply name_start_not_pct; exact Hc).
     cbn [sbind is_some].
-    assert (Hs1 : src = pre ++ print_rule (rlay_of l r) x ++ print_rules l (S r) rs) by (rewrite Hs; lsolve).
-    destruct (rule_at fa D src pre _ x _ i n a g e Hs1 Hi Hwr (print_rules_item_start _ _ _ _ Hw') Hinv) as [n1 H1].
-    destruct (parse_rule true fa KOriginal src (byte_len src) (fuel_for src) (mkSt n a g e) i)
+    assert (Hs1 : src = pre ++ print_rule (rlay_of l r) x ++ (print_rules l (S r) rs ++ rest)) by (rewrite Hs; lsolve).
+    destruct (rule_at k fa D src pre _ x _ i n a g e Hs1 Hi Hwr Hkx
+                (print_rules_item_start_app _ _ _ _ _ Hw' (rules_end_item_start _ He)) Hinv) as [n1 H1].
+    destruct (parse_rule true fa k src (byte_len src) (fuel_for src) (mkSt n a g e) i)
       as [[st1 [j|er]]| |] eqn:EX; cbn [sbind] in H1; try discriminate H1.
     cbn [sbind]. unfold P_ws in H1. rewrite H1. cbn [sbind].
-    assert (Hs2 : src = (pre ++ print_rule (rlay_of l r) x) ++ print_rules l (S r) rs) by (rewrite Hs; lsolve).
+    assert (Hs2 : src = (pre ++ print_rule (rlay_of l r) x) ++ print_rules l (S r) rs ++ rest) by (rewrite Hs; lsolve).
     assert (Hi2 : i + byte_len (print_rule (rlay_of l r) x) = byte_len (pre ++ print_rule (rlay_of l r) x))
       by (subst i; rewrite byte_len_app; reflexivity).
-    destruct (IH (S r) src _ _ f n1 (rule_eff fa (rlay_of l r) i (actiont_of g) x a) g e Hs2 Hi2 Hw'
+    destruct (IH (S r) src _ rest _ f n1 (rule_eff fa (rlay_of l r) i (actiont_of g) x a) g e Hs2 Hi2 Hw' Hk' He
                  (rule_eff_inv fa D _ _ _ _ _ Hinv) ltac:(lia)) as [n2 H2].
     exists n2. rewrite H2. f_equal. f_equal. f_equal. rewrite byte_len_app. lia.
 Qed.
 
-Lemma rules_section_at : forall fa D l src pre gap rs i n a g e,
-  src = pre ++ kw_pp ++ gap ++ print_rules l 0 rs -> i = byte_len pre ->
-  layout_text gap -> wf_rules D l 0 rs -> tok_inv D a ->
+Lemma rules_section_at : forall k fa D l src pre gap rs rest i n a g e,
+  src = pre ++ kw_pp ++ gap ++ print_rules l 0 rs ++ rest -> i = byte_len pre ->
+  layout_text gap -> wf_rules D l 0 rs -> Forall (rule_kind_ok k) rs -> rules_end rest -> tok_inv D a ->
   exists n',
-    parse_rules true fa KOriginal src (byte_len src) (fuel_for src) (mkSt n a g e) i
-    = Done (mkSt n' (rules_eff fa l 0 (i + 2 + byte_len gap) (actiont_of g) rs a) g e, Ok (byte_len src)).
+    parse_rules true fa k src (byte_len src) (fuel_for src) (mkSt n a g e) i
+    = Done (mkSt n' (rules_eff fa l 0 (i + 2 + byte_len gap) (actiont_of g) rs a) g e,
+            Ok (i + 2 + byte_len gap + byte_len (print_rules l 0 rs))).
 Proof.
-  intros fa D l src pre gap rs i n a g e Hs Hi Hl Hw Hinv.
+  intros k fa D l src pre gap rs rest i n a g e Hs Hi Hl Hw Hk He Hinv.
   unfold parse_rules. look1 Hs Hi. change (byte_len kw_pp) with 2.
-  assert (Hs1 : src = (pre ++ kw_pp) ++ gap ++ print_rules l 0 rs) by (rewrite Hs; lsolve).
+  assert (Hs1 : src = (pre ++ kw_pp) ++ gap ++ (print_rules l 0 rs ++ rest)) by (rewrite Hs; lsolve).
   assert (Hi1 : i + 2 = byte_len (pre ++ kw_pp)) by (subst i; rewrite byte_len_app; reflexivity).
-  rewrite (ws_gap _ _ _ _ _ _ _ _ _ true Hs1 Hi1 Hl (print_rules_item_start _ _ _ _ Hw)) by (intros HH; discriminate HH).
+  rewrite (ws_gap _ _ _ _ _ _ _ _ _ true Hs1 Hi1 Hl
+             (print_rules_item_start_app _ _ _ _ _ Hw (rules_end_item_start _ He))) by (intros HH; discriminate HH).
   cbn [sbind].
-  assert (Hs2 : src = ((pre ++ kw_pp) ++ gap) ++ print_rules l 0 rs) by (rewrite Hs; lsolve).
+  assert (Hs2 : src = ((pre ++ kw_pp) ++ gap) ++ print_rules l 0 rs ++ rest) by (rewrite Hs; lsolve).
   assert (Hi2 : i + 2 + byte_len gap = byte_len ((pre ++ kw_pp) ++ gap)) by (subst i; rewrite !byte_len_app; reflexivity).
   assert (Hlen : List.length rs < fuel_for src).
-  { unfold fuel_for. rewrite Hs2. rewrite (byte_len_app _ (print_rules l 0 rs)).
+  { unfold fuel_for. rewrite Hs2. rewrite (byte_len_app _ (print_rules l 0 rs ++ rest)), (byte_len_app (print_rules l 0 rs)).
     assert (Hle : forall rs r, wf_rules D l r rs -> List.length rs <= byte_len (print_rules l r rs)).
     { clear. intros rs. induction rs as [|x rs IH]; intros r Hw; [cbn; lia|].
       cbn [wf_rules print_rules List.length] in *. destruct Hw as [[Hn _] Hw'].
       destruct (print_rule_hd (rlay_of l r) x Hn) as [c [t [E _]]].
       rewrite byte_len_app, E. cbn [byte_len]. pose proof (len_utf8_pos c). specialize (IH _ Hw'). lia. }
     specialize (Hle rs 0 Hw). lia. }
-  destruct (rules_loop_at fa D l rs 0 src _ _ (fuel_for src) (n + count_nl gap) a g e Hs2 Hi2 Hw Hinv Hlen) as [n' Hn'].
-  exists n'. rewrite Hn'. f_equal. f_equal. f_equal. rewrite Hi2.
-  rewrite <- (byte_len_app _ (print_rules l 0 rs)). rewrite <- Hs2. reflexivity.
+  destruct (rules_loop_at k fa D l rs 0 src _ rest _ (fuel_for src) (n + count_nl gap) a g e Hs2 Hi2 Hw Hk He Hinv Hlen) as [n' Hn'].
+  exists n'. rewrite Hn'. reflexivity.
 Qed.
